@@ -214,3 +214,77 @@ Proof.
 Qed.
 
 End GenTime.
+
+(* ---------- the value relation of the optimizer proof absorbs the C01 relation ---------- *)
+
+(* v0: value of the unoptimized program; v1: value of the optimized program in the reference
+   semantics; v: the value generated code computes where the reference semantics computes v1 (same
+   bodies, the closures capture only what they use).  Then v is a value of the optimized program for
+   v0 as well.  This is what lets a constant computed at Generate time stand where the program would
+   have computed v1. *)
+Section Comp.
+Variable known : list (N * list name).
+Local Notation V := (OptRel.vrel known).
+
+Lemma Forall2_comp (l : list value) :
+  Forall (fun v => forall v0 v1, V v0 v1 -> Sim.vrel v1 v -> V v0 v) l ->
+  forall l0 l1, Forall2 V l0 l1 -> Forall2 Sim.vrel l1 l -> Forall2 V l0 l.
+Proof.
+  induction 1 as [|v l Hv Hl IH]; intros l0 l1 H01 H1.
+  - inversion H1; subst. inversion H01; subst. constructor.
+  - inversion H1; subst. inversion H01; subst. constructor; eauto.
+Qed.
+
+Lemma Forall2_comp_map (m : list (str * value)) :
+  Forall (fun e => forall v0 v1, V v0 v1 -> Sim.vrel v1 (snd e) -> V v0 (snd e)) m ->
+  forall m0 m1,
+    Forall2 (fun e1 e2 => fst e1 = fst e2 /\ V (snd e1) (snd e2)) m0 m1 ->
+    Forall2 (fun e1 e2 => fst e1 = fst e2 /\ Sim.vrel (snd e1) (snd e2)) m1 m ->
+    Forall2 (fun e1 e2 => fst e1 = fst e2 /\ V (snd e1) (snd e2)) m0 m.
+Proof.
+  induction 1 as [|e m He Hm IH]; intros m0 m1 H01 H1.
+  - inversion H1; subst. inversion H01; subst. constructor.
+  - inversion H1 as [|e1 e' m1' m' [K1 R1] T1]; subst. inversion H01 as [|e0 e1' m0' m1'' [K0 R0] T0]; subst.
+    constructor; [split; [congruence|eauto]|eauto].
+Qed.
+
+Theorem vrel_comp : forall v v0 v1, V v0 v1 -> Sim.vrel v1 v -> V v0 v.
+Proof.
+  induction v as [z|f|s|b|l IH|m IH|ps b c2 s2 IH|t] using value_ind3; intros v0 v1 H0 H1.
+  - inversion H1; subst. exact H0.
+  - inversion H1; subst. exact H0.
+  - inversion H1; subst. exact H0.
+  - inversion H1; subst. exact H0.
+  - inversion H1; subst. inversion H0; subst. constructor. eapply Forall2_comp; eauto.
+  - inversion H1; subst. inversion H0; subst. constructor. eapply Forall2_comp_map; eauto.
+  - inversion H1 as [| | | | | | |ps' b' c1 c2' s1 s2' HA HB HW]; subst.
+    inversion H0 as [| | | | | | |s ps' b0 b' env0 env' self0 self' Hb Hs Hself Henv]; subst.
+    apply vr_clo with (s := s); auto.
+    + (* the own name *)
+      destruct HB as [-> | ->]; [|exact Hself].
+      destruct self0 as [|c0 self0']; [left; reflexivity|right]. split; [reflexivity|].
+      destruct Hself as [-> | [-> Hd]]; [|exact Hd].
+      destruct (fv (c0 :: self0') b) eqn:F; [left|right; reflexivity].
+      destruct (wf_fv _ _ _ _ HW F) as [Hin|Hin].
+      * apply in_map_iff in Hin. destruct Hin as (p & E & Hp). inversion E; subst. apply in_mem_name; auto.
+      * exfalso. unfold clo_cm in Hin. rewrite app_nil_r in Hin.
+        destruct (lookup_in_some _ _ Hin) as [w L]. destruct (HA _ _ L) as [[E|E] _]; [discriminate|].
+        apply E. reflexivity.
+    + (* the environments on the names the body uses *)
+      intros x F M Ls. specialize (Henv x F M Ls).
+      rewrite mem_name_app' in M. apply orb_false_iff in M. destruct M as [Mp Mt].
+      destruct (wf_fv _ _ _ _ HW F) as [Hin|Hin].
+      * exfalso. apply in_map_iff in Hin. destruct Hin as (p & E & Hp). inversion E; subst.
+        rewrite (in_mem_name _ _ Hp) in Mp. discriminate.
+      * unfold clo_cm in Hin. apply in_app_or in Hin. destruct Hin as [Hin|Hin].
+        -- destruct (lookup_in_some _ _ Hin) as [w L]. destruct (HA _ _ L) as [_ (w1 & L1 & R1)].
+           rewrite L1 in Henv. rewrite L. inversion Henv as [|w0 w1' R0]; subst. constructor.
+           rewrite Forall_forall in IH. apply (IH (x, w) (lookup_in _ _ _ L) w0 w1 R0 R1).
+        -- exfalso. destruct s2 as [|c0 s2']; [destruct Hin|]. destruct Hin as [<-|[]].
+           destruct HB as [B|B]; [discriminate|]. subst s1.
+           destruct Hself as [E|[E _]]; [|discriminate]. subst self0.
+           cbn [this_names mem_name] in Mt. rewrite str_eqb_refl in Mt. discriminate.
+  - inversion H1; subst. exact H0.
+Qed.
+
+End Comp.
